@@ -126,7 +126,27 @@ def block_bytes(op: dict[str, Any]) -> bytes:
         while len(out) < n:
             out += bytes([rng.randrange(256)]) * rng.choice([1, 2, 7, 8, 9, 64, 300, 70000])
         return bytes(out[:n])
-    return random.Random(fill).randbytes(n)
+    data = bytearray(random.Random(fill).randbytes(n))
+    if fill % 5 == 3 and n >= 4:
+        # what real ROM data ends (or starts) with: padding made of 0x00 and 0xFF runs, terminators, masks
+        rng = random.Random(fill ^ 0xA5)
+        pad = bytearray()
+        want = min(n, rng.choice([2, 9, 10, 20, 64, 300]))
+        while len(pad) < want:
+            pad += bytes([rng.choice([0x00, 0xFF])]) * rng.choice([1, 1, 2, 8, 9, 16, 40])
+        pad = pad[:want]
+        if rng.random() < 0.8:
+            data[n - want :] = pad
+        else:
+            data[:want] = pad
+    if fill % 5 == 2 and n >= 5:
+        # the format's own magic strings inside the data (start, end, somewhere): data is data
+        rng = random.Random(fill ^ 0x5A)
+        for magic in rng.sample([b"EOF", b"PATCH", b"EOF\x00\x00", b"\x45\x4f\x46\x45\x4f\x46", b"PATCHEOF"], 2):
+            if len(magic) <= n:
+                pos = rng.choice([0, n - len(magic), rng.randrange(0, n - len(magic) + 1)])
+                data[pos : pos + len(magic)] = magic
+    return bytes(data)
 
 
 def gen_case(cseed: int, tier: str) -> dict[str, Any]:
